@@ -1,7 +1,9 @@
 """C01: parsing is total — any argv against any valid command returns, never panics."""
 import collections
+import os
+import re
 
-from .. import gen_cmd
+from .. import core, gen_cmd
 from ..core import hexs
 from ..parse_streams import gen_cases, decode_case, parse_result, outcome_class, GLOBAL_SETTINGS
 from ..runner import Stream
@@ -20,7 +22,16 @@ RULE = ("random command trees (vp/gen_cmd.py: depth <= 2(3), every setting toggl
         "(python mirror of the class, a subset) x lines aimed at the resume logic: names down to a level with a short "
         "flag-subcommand, a cluster -<flags>*S<letters incl. the child's shorts, S again, =, digits, unknown letters, non-UTF-8 "
         "bytes>, then further clusters / names / boundary tokens; non-trivial = a cluster carries a flag-subcommand letter "
-        "that is not its last byte (keep_state); a panic on this stream is a violation even with the message of the recorded finding.")
+        "that is not its last byte (keep_state); a panic on this stream is a violation even with the message of the recorded finding.  "
+        "Stream parse-single-clusters (round 5): definitions with short flag-subcommands, mostly OUTSIDE flag_sub_class (nested, hyphen "
+        "positionals), x lines of the class of C01_no_panic_single_clusters (no token is a short cluster of more than one character): "
+        "a walk that selects every level by its own token, single-letter flags, values, boundary tokens, and generic lines with every "
+        "multi-character cluster split; non-trivial = definition outside the class mirror and a level selected by `-S`; a panic is a "
+        "violation as on parse-flagsub-class.  Stream parse-no-resume (round 5): the same definitions x lines of the class of "
+        "C01_no_panic_no_resume: clusters of several flags, attached values, `=` forms are kept, a cluster is cut only behind a short "
+        "flag-subcommand letter of the tree, so such a letter always ends its cluster; non-trivial = outside the class mirror, a level "
+        "selected by a cluster ending in such a letter, and a multi-character cluster on the line.  Pseudo-stream panic-site-classes: no cases; carries the coverage class of every source "
+        "panic site into the evidence.")
 TRUSTED = [
     "Coq 8.16.1 kernel (coqc); no native_compute; theorems C01_* are 'Closed under the global context'",
     "extraction: ExtrOcamlBasic only, no Extract Constant; OCaml driver ocaml/parse_driver.ml + common_parse/{spec,show}.ml",
@@ -30,8 +41,8 @@ TRUSTED = [
     "InvalidSubcommand and UnknownArgument is outside this property's projection); <str as Debug>::fmt (used by the "
     "error formatter's Escape) is a parameter of the rendering model",
     "translators/parse_sites.py (regex extraction of panic-shaped sites per function, of ErrorKind::as_str, of the "
-    "ContextKind enum and of what each error constructor attaches); 13 rows of the site table are justified by "
-    "reasoning local to the Rust function (pinned list: C01_sites_reasoned_rows)",
+    "ContextKind enum and of what each error constructor attaches); 10 rows of the site table are justified by "
+    "reasoning local to the Rust function (pinned lists: C01_sites_reasoned_rows, C01_sites_classified)",
     "stream errctx: harness/src/modes/c01.rs reads the private message form off the derived Debug of the error; "
     "ocaml/errctx_driver.ml; the suggestion context kinds, PriorArg's variant and InvalidArg-vs-InvalidSubcommand for "
     "ArgumentConflict / unknown-token errors are outside the comparison",
@@ -41,17 +52,20 @@ ASSUMPTIONS = [
     "agreement with a debug build's Command::build() is part of the correspondence (INVALID must coincide)",
     "no multicall, no Command::defer, built-in value parsers only",
     "stack/heap exhaustion and wall-clock are outside the theorem; the harness run has a per-shard timeout",
-    "C01_no_panic is proved for commands without short flag-subcommands (class plain) and, round 4, "
-    "C01_no_panic_flag_subs for the boolean class flag_sub_class (short flag-subcommands allowed; every level a "
-    "cluster can re-enter has no short flag-subcommands of its own and a first positional without negative-number / "
-    "non-last hyphen values); outside that class the resume counter of short flag-subcommands is the recorded "
-    "finding C01-flag-subcmd-skip",
+    "round 5: for EVERY definition the gate accepts (class unbuilt: the internal Built flag is unset on every node, a "
+    "syntactic check; users cannot set it) the only reachable panic site is debug_assert_eq!(advance_by(skip)) of "
+    "Parser::parse_short_arg (C01_only_site_920); it is unreachable for the boolean class flag_sub_class "
+    "(C01_no_panic_flag_subs: short flag-subcommands allowed; every level a cluster can re-enter has no short "
+    "flag-subcommands of its own and a first positional without negative-number / non-last hyphen values) and reachable "
+    "outside it: the recorded finding C01-flag-subcmd-skip",
 ]
 TECHNIQUE = ("Coq proof (state invariant of the parse loop: every unwrap/expect/unreachable!/debug_assert site of "
              "parser.rs/arg_matcher.rs on the path is dead for commands accepted by the validity gate; fuel = tree depth "
              "suffices -- for definitions without short flag-subcommands and, with the invariant generalised over "
-             "flag_subcmd_at/flag_subcmd_skip, for the boolean class flag_sub_class with them; ignore_errors swallows every stderr-class error; panic-site table regenerated from the Rust source "
-             "and proved equal to the model's, in both directions; model of the error value, its constructors and "
+             "flag_subcmd_at/flag_subcmd_skip, for the boolean class flag_sub_class with them, and for EVERY valid definition up to the one "
+             "debug assertion of the recorded finding (invariant: flag_subcmd_at is constant inside a level and <= cur_idx); "
+             "ignore_errors at the entry point: matches or help/version, nothing else; panic-site table regenerated from the Rust source "
+             "and proved equal to the model's, in both directions, every site with a pinned coverage class; model of the error value, its constructors and "
              "RichFormatter with 'rendering never panics and gets its context') + extracted-model/implementation "
              "correspondence (outcome class; for errors also context kinds, value variants, message form)")
 LEVEL_TEXT = ("Machine-checked theorems (Coq 8.16, closed under the global context) about the executable model of "
@@ -70,7 +84,21 @@ LEVEL_TEXT = ("Machine-checked theorems (Coq 8.16, closed under the global conte
               "are modelled with their unwraps visible: rendering never panics for any error value, every error the parser model "
               "returns (any definition, any input) is built by a modelled constructor and carries the context its message needs; "
               "the constructor/context tables are regenerated from error/*.rs and the context of every error is compared with the "
-              "implementation (stream errctx); (c) two further refutation witnesses for classes with short flag-subcommands.")
+              "implementation (stream errctx); (c) two further refutation witnesses for classes with short flag-subcommands.  "
+              "Round 4: no panic for the boolean class flag_sub_class (flat short flag-subcommands).  Round 5: (A) gate and class do "
+              "not read the program name, so the entry-point theorems speak about the definition as written (C01_no_panic_argv); the "
+              "error-ignoring contract at try_get_matches_from for the user-level setting: matches or DisplayHelp/DisplayVersion, "
+              "nothing else (C01_ignore_errors_top); (B) for EVERY definition the gate accepts and every argv the only reachable "
+              "panic site is the debug assertion on advance_by(skip) -- 30 of the 31 modelled source sites, incl. the unsigned "
+              "subtraction cur_idx - flag_subcmd_at, are dead without any class restriction (C01_only_site_920, "
+              "C01_sites_dead_any_valid); (C) every one of the 48 source sites has a coverage class pinned by name "
+              "(C01_sites_classified: 7 proved for every definition, 30 dead for every valid definition, 1 dead in the class only, "
+              "10 reasoned), printed into the evidence; three formerly prose rows are theorems (external-subcommand guard, ids of "
+              "missing_required_error); (D) the line side: for every valid definition a line without multi-character short clusters "
+              "never panics (C01_no_panic_single_clusters) -- a panic needs a definition outside flag_sub_class AND such a cluster, and "
+              "is then that one assertion; (F) sharpened: no panic on any line in which no short flag-subcommand letter of the definition is "
+              "followed by further characters of its cluster (C01_no_panic_no_resume: the resume logic is never engaged); the whole "
+              "property statement at the entry point in one theorem (C01_entry_point_summary).")
 LEVEL_NOTE = ("Trusted: Coq kernel, extraction, OCaml driver, Rust harness, generators. Recorded finding: nested short "
               "flag-subcommands whose intermediate flag consumes a number of indices other than one make the "
               "flag_subcmd_skip debug assertion fail (debug builds panic, release builds reject the line); round 2 found two "
@@ -79,7 +107,9 @@ LEVEL_NOTE = ("Trusted: Coq kernel, extraction, OCaml driver, Rust harness, gene
               "proves the no-panic theorem for the class in which neither mechanism can occur (flag_sub_class: short "
               "flag-subcommands one level deep below any chain of ordinary subcommands, re-entered level without a "
               "negative-number / non-last hyphen-value first positional); definitions with short flag-subcommands outside that "
-              "class are covered by the correspondence run and the direct oracle only. Not compared: error text, suggestion "
+              "class are covered, for that ONE assertion, by the correspondence run and the direct oracle only (round 5: every other "
+              "site is proved dead there too). Differential only: that assertion outside flag_sub_class; 10 source sites justified by "
+              "type-level / std-library / TypeId arguments (listed by name in the evidence). Not compared: error text, suggestion "
               "context kinds.")
 
 KNOWN_SKIP_MSG = "tracking of `flag_subcmd_skip` is off"
@@ -242,6 +272,8 @@ def in_flag_sub_class(c):
     """python mirror (conservative: a subset) of the boolean class `flag_sub_class` of C01_no_panic_flag_subs: every
     subcommand that has a short flag has no child with a short flag, and none of its positionals allows hyphen values
     or negative numbers.  (The generator never sets the command-level AllowHyphenValues / AllowNegativeNumbers.)"""
+    if {"allow_hyphen_values", "allow_negative_numbers"} & set(c.get("settings", [])):
+        return False      # command-level (deprecated) settings reach the positionals of every level below: stay conservative
     for s in c["subs"]:
         if _has_short_flag(s):
             if any(_has_short_flag(t) for t in s["subs"]):
@@ -329,6 +361,242 @@ def nontrivial_flagsub(case, impl):
     return False
 
 
+# ---------------------------------------------------------------- stream parse-single-clusters (round 5)
+def multi_cluster(t):
+    """python mirror of FsLine.multi_cluster: `-` + one character + at least one more byte"""
+    if len(t) < 2 or t[:1] != b"-" or t[:2] == b"--":
+        return False
+    r = t[1:]
+    for n in (1, 2, 3, 4):
+        try:
+            if len(r[:n].decode("utf-8")) == 1 and len(r[:n]) == n:
+                return len(r) > n
+        except UnicodeDecodeError:
+            continue
+    return False
+
+
+def split_cluster(t):
+    """`-abc` -> `-a -b -c`; a tail that is not UTF-8 stays one token (`-\xff..` is not a cluster of characters)"""
+    out = []
+    r = t[1:]
+    while r:
+        for n in (1, 2, 3, 4):
+            try:
+                if len(r[:n].decode("utf-8")) == 1 and len(r[:n]) == n:
+                    out.append(b"-" + r[:n])
+                    r = r[n:]
+                    break
+            except UnicodeDecodeError:
+                continue
+        else:
+            out.append(b"-" + r)
+            break
+    return out
+
+
+def single_cluster_cases(rng, n):
+    """definitions WITH short flag-subcommands -- mostly outside flag_sub_class: nested ones, hyphen / negative-number
+    positionals in re-entered levels -- x lines of the class of C01_no_panic_single_clusters (no token is a short cluster of
+    more than one character): a walk down the tree that selects every level by its own token (`-S`, a name, a long flag),
+    with single-letter flags of that level, values and boundary tokens in between, and generic rendered / mutated lines in
+    which every multi-character cluster is split into single letters."""
+    prof = gen_cmd.Profile(flag_subs=0.8, hyphen=0.35, depth=3, settings=0.2, infer=0.2, require_equals=0.2, ignore_errors=0.15,
+                           invalid=0.0)
+    out = []
+    guard = 0
+    while len(out) < n and guard < 200 * n + 1000:
+        guard += 1
+        c = gen_cmd.gen_cmd(rng, prof)
+        if not uses_short_flag_sub(c):
+            continue
+        if in_flag_sub_class(c) and rng.random() < 0.7:
+            continue
+        lines = []
+        for _ in range(5):
+            toks = []
+            cc = c
+            while True:
+                shorts = [a["short"] for a in cc["args"] if a.get("short")]
+                for _ in range(rng.choice([0, 0, 1, 1, 2])):
+                    r = rng.random()
+                    if r < 0.6 and shorts:
+                        toks.append(b"-" + rng.choice(shorts).encode())
+                    elif r < 0.8:
+                        toks.append(rng.choice(gen_cmd.VALUES))
+                    else:
+                        toks.append(rng.choice(gen_cmd.BOUNDARY))
+                if not cc["subs"] or rng.random() < 0.2:
+                    break
+                withflag = [s for s in cc["subs"] if s.get("short_flag")]
+                s_ = rng.choice(withflag) if withflag and rng.random() < 0.8 else rng.choice(cc["subs"])
+                if s_.get("short_flag") and rng.random() < 0.85:
+                    toks.append(b"-" + s_["short_flag"].encode())
+                elif s_.get("long_flag") and rng.random() < 0.5:
+                    toks.append(b"--" + s_["long_flag"])
+                else:
+                    toks.append(s_["name"])
+                cc = s_
+            lines.append(toks)
+        for _ in range(3):
+            a = gen_cmd.gen_argv(rng, c, p_mutate=0.5, safe_p=0.4)
+            lines.append(a if "no_binary_name" in c["settings"] else a[1:])
+        for toks in lines:
+            flat = []
+            for t in toks:
+                flat += split_cluster(t) if multi_cluster(t) else [t]
+            assert not any(multi_cluster(t) for t in flat)
+            out.append(gen_cmd.case_sx(c, flat if "no_binary_name" in c["settings"] else [b"prog"] + flat))
+    return out[:n]
+
+
+def nontrivial_single(case, impl):
+    """the definition is outside (the python mirror of) flag_sub_class and the line selects a level by a short
+    flag-subcommand letter"""
+    if not nontrivial(case, impl):
+        return False
+    cmd, argv = decode_case(case)
+    if in_flag_sub_class(cmd):
+        return False
+    letters = set()
+
+    def walk(cc):
+        for s in cc["subs"]:
+            if s.get("short_flag"):
+                letters.add(b"-" + (s["short_flag"].encode() if isinstance(s["short_flag"], str) else s["short_flag"]))
+            walk(s)
+    walk(cmd)
+    return any(t in letters for t in argv[1:])
+
+
+# ---------------------------------------------------------------- stream parse-no-resume (round 5)
+def tree_letters(c):
+    """every short flag and short-flag alias of every subcommand of the tree (the set L of C01_no_panic_no_resume)"""
+    out = set()
+    for s_ in c["subs"]:
+        if s_.get("short_flag"):
+            out.add(s_["short_flag"])
+        for n_, _ in s_.get("short_flag_aliases", []):
+            out.add(n_)
+        out |= tree_letters(s_)
+    return out
+
+
+def cluster_chars(t):
+    """characters of the cluster `-...` as byte strings, up to the first byte sequence that is not UTF-8 (kept as one item)"""
+    r = t[1:]
+    out = []
+    while r:
+        for n in (1, 2, 3, 4):
+            try:
+                if len(r[:n].decode("utf-8")) == 1 and len(r[:n]) == n:
+                    out.append(r[:n])
+                    r = r[n:]
+                    break
+            except UnicodeDecodeError:
+                continue
+        else:
+            out.append(r)
+            break
+    return out
+
+
+def is_cluster(t):
+    return len(t) >= 2 and t[:1] == b"-" and t[:2] != b"--"
+
+
+def resumes(t, letters):
+    """python mirror of `tok_ok L t = false`: a character of L with something behind it in the cluster"""
+    if not is_cluster(t):
+        return False
+    ch = cluster_chars(t)
+    return any(x in letters for x in ch[:-1])
+
+
+def split_after_letters(t, letters):
+    """`-aSxy` -> `-aS -xy`: cut the cluster behind every letter of L"""
+    out, cur = [], b""
+    for x in cluster_chars(t):
+        cur += x
+        if x in letters:
+            out.append(b"-" + cur)
+            cur = b""
+    if cur:
+        out.append(b"-" + cur)
+    return out
+
+
+def no_resume_cases(rng, n):
+    """definitions with short flag-subcommands, mostly outside flag_sub_class, x lines of the class of C01_no_panic_no_resume:
+    multi-character clusters, attached values, `=` forms are all kept; a cluster is cut only behind a short flag-subcommand
+    letter of the tree (`-aSxy` -> `-aS -xy`), so such a letter always ends its cluster."""
+    prof = gen_cmd.Profile(flag_subs=0.8, hyphen=0.35, depth=3, settings=0.2, infer=0.2, require_equals=0.2, ignore_errors=0.15,
+                           invalid=0.0)
+    out = []
+    guard = 0
+    while len(out) < n and guard < 200 * n + 1000:
+        guard += 1
+        c = gen_cmd.gen_cmd(rng, prof)
+        if not uses_short_flag_sub(c):
+            continue
+        if in_flag_sub_class(c) and rng.random() < 0.7:
+            continue
+        letters = {x.encode() for x in tree_letters(c)}
+        lines = []
+        for _ in range(5):
+            toks = []
+            cc = c
+            while True:
+                shorts = [a["short"] for a in cc["args"] if a.get("short")]
+                for _ in range(rng.choice([0, 1, 1, 2])):
+                    r = rng.random()
+                    if r < 0.55 and shorts:
+                        k = rng.choice([1, 2, 2, 3])
+                        cl = "".join(rng.choice(shorts) for _ in range(k)).encode()
+                        if rng.random() < 0.3:
+                            cl += rng.choice([b"=v", b"val", b"1", b"=", b"\xff"])
+                        toks.append(b"-" + cl)
+                    elif r < 0.8:
+                        toks.append(rng.choice(gen_cmd.VALUES))
+                    else:
+                        toks.append(rng.choice(gen_cmd.BOUNDARY))
+                if not cc["subs"] or rng.random() < 0.2:
+                    break
+                withflag = [s_ for s_ in cc["subs"] if s_.get("short_flag")]
+                s_ = rng.choice(withflag) if withflag and rng.random() < 0.8 else rng.choice(cc["subs"])
+                if s_.get("short_flag") and rng.random() < 0.85:
+                    pre = "".join(rng.choice(shorts) for _ in range(rng.choice([0, 0, 1, 2]))) if shorts else ""
+                    toks.append(b"-" + pre.encode() + s_["short_flag"].encode())      # the letter ENDS its cluster
+                elif s_.get("long_flag") and rng.random() < 0.5:
+                    toks.append(b"--" + s_["long_flag"])
+                else:
+                    toks.append(s_["name"])
+                cc = s_
+            lines.append(toks)
+        for _ in range(3):
+            a = gen_cmd.gen_argv(rng, c, p_mutate=0.5, safe_p=0.4)
+            lines.append(a if "no_binary_name" in c["settings"] else a[1:])
+        for toks in lines:
+            flat = []
+            for t in toks:
+                flat += split_after_letters(t, letters) if resumes(t, letters) else [t]
+            assert not any(resumes(t, letters) for t in flat)
+            out.append(gen_cmd.case_sx(c, flat if "no_binary_name" in c["settings"] else [b"prog"] + flat))
+    return out[:n]
+
+
+def nontrivial_no_resume(case, impl):
+    """outside the mirror of flag_sub_class, a level selected by a short flag-subcommand letter, and a multi-character cluster"""
+    if not nontrivial_single(case, impl) and not nontrivial(case, impl):
+        return False
+    cmd, argv = decode_case(case)
+    if in_flag_sub_class(cmd):
+        return False
+    letters = {x.encode() for x in tree_letters(cmd)}
+    sel = any(is_cluster(t) and cluster_chars(t)[-1:] and cluster_chars(t)[-1] in letters for t in argv[1:])
+    return sel and any(multi_cluster(t) for t in argv[1:])
+
+
 def describe(cases, tag):
     feats = collections.Counter()
     lens = collections.Counter()
@@ -355,6 +623,110 @@ def describe(cases, tag):
                 walk(s, d + 1)
         walk(cmd, 1)
     return {"sampled": min(len(cases), 3000), "argv_len": dict(sorted(lens.items())), "features": dict(feats.most_common(60))}
+
+
+# ---------------------------------------------------------------- panic-site coverage classes (round 5)
+SITE_CLASSES = [
+    ("CovAllDefs", "proved_for_every_definition",
+     "a statement about the model proved for EVERY definition (valid or not) and every input makes the site dead"),
+    ("CovValid", "dead_for_every_valid_definition",
+     "visible panic result of the model; never the outcome for every definition the gate accepts (class unbuilt /\\ valid), every argv"),
+    ("CovClassOnly", "DIFFERENTIAL_ONLY_outside_flag_sub_class",
+     "visible panic result of the model; dead for class flag_sub_class, REACHABLE outside it (finding C01-flag-subcmd-skip): "
+     "outside the class only the correspondence run and the direct oracle cover it"),
+    ("CovReasoned", "DIFFERENTIAL_ONLY_reasoned",
+     "no statement about the model: dead by reasoning local to the Rust function (string in Sites.v); covered by the direct oracle only"),
+]
+_SITE_RE = re.compile(r'\("([^"]+)", "([^"]+)", "([^"]+)", (\d+)\)')
+
+
+def site_classification():
+    """The four pinned lists of C01_sites_classified (Properties/C01.v; the proof gate has checked that they are the
+    classification computed from Sites.model_site_table and that together they are exactly Gen/ParseSites.v, which the
+    translator regenerated from the Rust source on this run), re-read here for the evidence, plus an independent
+    cross-check against the generated list."""
+    th = os.path.join(core.ROOT, "coq", "theories")
+    out = {"classes": {}, "meaning": {}}
+    try:
+        text = open(os.path.join(th, "Properties", "C01.v")).read()
+        i = text.index("Theorem C01_sites_classified :")
+        stmt = text[i:text.index("Proof.", i)]
+        gen_text = open(os.path.join(th, "Gen", "ParseSites.v")).read()
+        render_text = gen_text[gen_text.index("Definition render_path_sites"):gen_text.index("command_fns_on_parse_path")]
+        gen_text = gen_text[:gen_text.index("Definition render_path_sites")]
+        k = text.index("Theorem C01_render_path_sites :")
+        render_stmt = text[k:text.index("Proof.", k)]
+    except (OSError, ValueError) as ex:
+        return {"error": "cannot read the classification: %r" % (ex,)}
+    fmt = lambda k: "%s %s %s #%s" % k  # noqa: E731
+    seen = []
+    for cov, label, meaning in SITE_CLASSES:
+        m = re.search(r"sites_of %s =\s*\[(.*?)\]" % cov, stmt, re.S)
+        keys = _SITE_RE.findall(m.group(1)) if m else []
+        out["classes"][label] = [fmt(k) for k in keys]
+        out["meaning"][label] = meaning
+        seen += keys
+    gen = _SITE_RE.findall(gen_text)
+    out["source_sites"] = len(gen)
+    out["unclassified_source_sites"] = [fmt(k) for k in gen if k not in seen]
+    out["classified_but_not_in_source"] = [fmt(k) for k in seen if k not in gen]
+    out["counts"] = {label: len(v) for label, v in out["classes"].items()}
+    # the error-construction path (usage / help text): C12's models; for C01 differential only
+    rgen = _SITE_RE.findall(render_text)
+    rpin = _SITE_RE.findall(render_stmt)
+    out["classes"]["DIFFERENTIAL_ONLY_error_construction_path_C12"] = [fmt(k) for k in rpin]
+    out["meaning"]["DIFFERENTIAL_ONLY_error_construction_path_C12"] = (
+        "output/usage.rs, output/help_template.rs, builder/styled_str.rs: reached while an error is constructed (usage string, help "
+        "text); outside the parser model, modelled and proved dead for its own class by C12 (C12_usage_total, C12_padding_safe, "
+        "C12_render_total); for C01 covered by rendering every error under catch_unwind on every case")
+    out["counts"]["DIFFERENTIAL_ONLY_error_construction_path_C12"] = len(rpin)
+    out["unclassified_source_sites"] += [fmt(k) for k in rgen if k not in rpin]
+    out["classified_but_not_in_source"] += [fmt(k) for k in rpin if k not in rgen]
+    # error/{format,mod,kind,context}.rs: modelled in Errors/RenderModel.v (Panic 175, 276), pinned by C01_error_tables_match
+    try:
+        et = open(os.path.join(th, "Gen", "ErrorCtx.v")).read()
+        et = et[et.index("Definition gen_format_sites"):]
+        fs = re.findall(r'\("([^"]+)", "([^"]+)", (\d+)\)', et)
+        k2 = text.index("Theorem C01_error_tables_match")
+        pinned = re.findall(r'\("([^"]+)", "([^"]+)", (\d+)%N\)', text[k2:text.index("Proof.", k2)])
+        label = "proved_for_every_error_value_error_rs"
+        out["classes"][label] = ["error/*.rs %s %s #%s" % k for k in pinned]
+        out["meaning"][label] = ("unwrap sites of error/format.rs and error/mod.rs, visible in Errors/RenderModel.v and dead for EVERY "
+                                 "error value / every constructor argument (C01_render_total, C01_conflict_ctors_total)")
+        out["counts"][label] = len(pinned)
+        out["unclassified_source_sites"] += ["error/*.rs %s %s #%s" % k for k in fs if k not in pinned]
+        out["classified_but_not_in_source"] += ["error/*.rs %s %s #%s" % k for k in pinned if k not in fs]
+    except (OSError, ValueError):
+        pass
+    return out
+
+
+_SITE_NOTE_PREFIX = "panic sites of the parse path"
+
+
+def publish_site_classes():
+    """print the classification and put the differential-only lists into the evidence (assumptions + distributions)"""
+    sc = site_classification()
+    ASSUMPTIONS[:] = [a for a in ASSUMPTIONS if not a.startswith(_SITE_NOTE_PREFIX)]
+    if "error" in sc:
+        ASSUMPTIONS.append("%s: %s" % (_SITE_NOTE_PREFIX, sc["error"]))
+        print("C01 panic sites: " + sc["error"])
+        return sc
+    c = sc["classes"]
+    ASSUMPTIONS.append(
+        "%s (regenerated from the source on this run: %d; pinned by C01_sites_classified): %d dead by a statement proved "
+        "for every definition, %d dead for EVERY definition the gate accepts (C01_sites_dead_any_valid), and DIFFERENTIAL "
+        "ONLY: (a) reachable outside class flag_sub_class, dead inside (C01_sites_dead_flag_subs): %s; (b) justified by "
+        "reasoning local to the Rust function, no theorem: %s; (c) %d sites of output/usage.rs, output/help_template.rs, "
+        "builder/styled_str.rs reached while an error is constructed: C12's models (C01_render_path_sites pins the list)"
+        % (_SITE_NOTE_PREFIX, sc["source_sites"], len(c["proved_for_every_definition"]),
+           len(c["dead_for_every_valid_definition"]), "; ".join(c["DIFFERENTIAL_ONLY_outside_flag_sub_class"]) or "none",
+           "; ".join(c["DIFFERENTIAL_ONLY_reasoned"]) or "none",
+           len(c["DIFFERENTIAL_ONLY_error_construction_path_C12"])))
+    print("C01 panic sites: %d in the source; %s; unclassified: %s; stale: %s"
+          % (sc["source_sites"], ", ".join("%s=%d" % kv for kv in sc["counts"].items()),
+             sc["unclassified_source_sites"] or "none", sc["classified_but_not_in_source"] or "none"))
+    return sc
 
 
 def streams(tier, rng):
@@ -384,13 +756,36 @@ def streams(tier, rng):
     fsc = flagsub_cases(rng, 20000 if big else 2000)
     flagsub = Stream("parse-flagsub-class", fsc, oracle=oracle, area="parse", project=project,
                      nontrivial=nontrivial_flagsub, describe=describe(fsc, "parse-flagsub-class"))
+    # round 5: the class of C01_no_panic_single_clusters (any definition, no multi-character short cluster on the line)
+    # against the real crate; as on parse-flagsub-class the message of the recorded finding is NOT accepted here
+    scc = single_cluster_cases(rng, 20000 if big else 2000)
+    single = Stream("parse-single-clusters", scc, oracle=oracle, area="parse", project=project,
+                    nontrivial=nontrivial_single, describe=describe(scc, "parse-single-clusters"))
+    nrc = no_resume_cases(rng, 20000 if big else 2000)
+    noresume = Stream("parse-no-resume", nrc, oracle=oracle, area="parse", project=project,
+                      nontrivial=nontrivial_no_resume, describe=describe(nrc, "parse-no-resume"))
+    # round 5: the coverage class of every panic-shaped source site, into the evidence (no cases: the proof gate has
+    # checked the lists; a site of the regenerated table without a class fails C01_sites_match / C01_sites_classified)
+    sites = Stream("panic-site-classes", [], describe=publish_site_classes())
     return [mk("parse-random", rand), mk("parse-adversarial", adversarial), mk("parse-boundary", bound),
-            mk("parse-ignore-errors", ign), flagsub, errctx]
+            mk("parse-ignore-errors", ign), flagsub, single, noresume, errctx, sites]
 
 
 def classify_known(stream, case, impl, failure):
-    if stream == "parse-flagsub-class":
-        return None       # definitions of the class of C01_no_panic_flag_subs: the recorded finding cannot occur there
+    if stream in ("parse-flagsub-class", "parse-single-clusters", "parse-no-resume"):
+        return None       # definitions resp. lines of the classes of C01_no_panic_flag_subs / C01_no_panic_single_clusters /
+                          # C01_no_panic_no_resume: the recorded finding cannot occur there
     if impl and impl.startswith("PANIC") and KNOWN_SKIP_MSG in impl:
+        # round 5: the family is enclosed by theorems (C01_entry_point_summary): the assertion needs a definition outside
+        # flag_sub_class AND a cluster in which a short flag-subcommand letter of the definition is followed by more.  The
+        # message alone is no longer enough: anywhere else the same panic is reported as a violation.
+        try:
+            cmd, argv = decode_case(case)
+            letters = {x.encode() for x in tree_letters(cmd)}
+            toks = argv if "no_binary_name" in cmd["settings"] else argv[1:]
+            if in_flag_sub_class(cmd) or not any(resumes(t, letters) for t in toks):
+                return None
+        except Exception:
+            return None
         return "C01-flag-subcmd-skip"
     return None
